@@ -159,7 +159,12 @@ def check_table(decs: Sequence[Decision], atoms: Sequence[str], spec: Callable[[
             covered.add(tuple(sorted(total.items())))
             if got != exp:
                 msg = f"under {_show(total)} the outcome is {got!r}, expected {exp!r}"
-                if foreign and strict_foreign:
+                # a condition that is a call of a private function the engine did not see through is not an independent condition but
+                # unread code: the path is unrecognised, whatever the policy on foreign conditions
+                unread = [k for k in foreign if _PRIVATE_CALL.match(k)]
+                if unread:
+                    unknowns.append(msg + f" (the path is decided by private code that was not resolved: {sorted(unread)})")
+                elif foreign and strict_foreign:
                     msg += f" (the path also tests {sorted(foreign)}, which the specification does not make the outcome depend on)"
                     if msg not in violations:
                         violations.append(msg)
@@ -174,6 +179,10 @@ def check_table(decs: Sequence[Decision], atoms: Sequence[str], spec: Callable[[
         if tuple(sorted(total.items())) not in covered:
             violations.append(f"no path handles {_show(total)} (expected {spec(total)!r})")
     return violations, unknowns
+
+
+import re as _re
+_PRIVATE_CALL = _re.compile(r"^_[A-Za-z0-9]\w*\(")
 
 
 def _show(total: Dict[str, bool]) -> str:
